@@ -15,6 +15,7 @@ from harness.common import Case, f
 from harness.detcal import det_world, histories_equal, history, make_calibrator, make_rl_calibrator, make_sampler, rl_baton, shared_functions
 from symx.core import lift
 from symx.memfs import MemFS
+from symx.core import reraise_if_harness  # noqa: E402
 
 LEVEL = "model_checking"
 FUNCTIONS = [
@@ -144,6 +145,7 @@ def replay_rl(lineup, nb, jobs, S, eps):
         a = run([11 + i for i in range(k)], min(jobs[0], 2), False)
         b = run([97 + 3 * i for i in range(k)], min(jobs[1], 2), True)
     except Exception as e:  # noqa: BLE001
+        reraise_if_harness(e)
         return True, f"calibration raised {type(e).__name__}: {e}"
     msgs = []
     for nm in ("params_samp", "losses_samp", "series_samp", "batch_num_samp", "method_samp"):
@@ -183,6 +185,7 @@ def replay_concrete(lineup, nb, E, jobs, S):
         a, ra = run([11 + i for i in range(len(lineup))], min(jobs[0], 2), False, None)
         b, rb = run([97 + 3 * i for i in range(len(lineup))], min(jobs[1], 2), True, tmp)
     except Exception as e:  # noqa: BLE001
+        reraise_if_harness(e)
         shutil.rmtree(tmp, ignore_errors=True)
         return True, f"calibration raised {type(e).__name__}: {e}"
     shutil.rmtree(tmp, ignore_errors=True)
